@@ -405,7 +405,13 @@ def run_seed(case, ctx):
         return
     # unmodified shipped files: loaders must build equal objects from both forms
     if kind == 'equipment':
-        for d in obj_diffs(load_eq(L), load_eq(C)):
+        # shipped libraries may name any shipped amplifier config file (default_config_from_json / advanced_config_...)
+        extra = {}
+        for rel in documents.SEEDS['edfa-config']:
+            pth = Path(_gnpy_root()) / rel
+            pth = pth if pth.exists() else Path('/repo') / rel
+            extra[rel.split('/')[-1]] = json.loads(pth.read_text(encoding='utf-8'))
+        for d in obj_diffs(load_eq(L, extra), load_eq(C, extra)):
             ctx.violation(f'semantics:equipment:{_num_sig(d.split(":")[0])}', d)
     elif kind in ('spectrum', 'sim-params', 'edfa-config'):
         semantics_small(ctx, kind, L, C)
